@@ -336,6 +336,9 @@ pub fn observe_guarded(t: &Tera, ctxs: &[Context], probe: &Probe, budget: u64, d
         }
     }
     let mut guarded = |what: String, registered: bool, f: &mut dyn FnMut() -> Result<String, tera::Error>, problems: &mut Vec<(String, String)>| -> String {
+        if std::env::var("TERASIM_TRACE").is_ok() {
+            eprintln!("trace: {}", what);
+        }
         set_step_limit(steps() + budget);
         let r = catch(|| f());
         clear_step_limit();
@@ -357,6 +360,9 @@ pub fn observe_guarded(t: &Tera, ctxs: &[Context], probe: &Probe, budget: u64, d
                 if let Err(e) = &r {
                     let _ = format!("{:?}", e);
                     let msg = format!("{}", e);
+                    // includes, parents and components were all validated when the set was
+                    // accepted: "not found" must not come out of rendering a registered name,
+                    // not even from a nested lookup
                     if registered && matches!(e.kind(), ErrorKind::TemplateNotFound(_) | ErrorKind::ComponentNotFound(_)) {
                         problems.push(("registered-name-not-found".into(), format!("{}: {}", what, msg)));
                     }
